@@ -8,11 +8,11 @@ use crate::prng::Rng;
 use crate::refi::{parse_pattern, str_match, PKind};
 
 pub const WORDS: &[&str] = &["foo", "bar", "baz", "qux", "Foo", "BAR", "fo", "ob", "a", "b", "x1", "ar", "o", ""];
-pub const TOP_FIELDS: &[&str] = &["a", "b", "c", "d", "num", "flag", "tags", "n.a", "n.b", "m.x", "arr[0]", "arr[1]", "two words", "m.x[1]", "n.a[0]", "two  words", " lead", "tab\tkey", "trail ", "#phrase", "a_b1", "A.B"];
+pub const TOP_FIELDS: &[&str] = &["a", "b", "c", "d", "num", "flag", "tags", "n.a", "n.b", "m.x", "arr[0]", "arr[1]", "two words", "m.x[1]", "n.a[0]", "two  words", " lead", "tab\tkey", "trail ", "#phrase", "a_b1", "A.B", "arr[10]", "tags[12]", "ab", "a.b"];
 pub const NEST_FIELDS: &[&str] = &["n", "m", "p"];
 pub const INNER_FIELDS: &[&str] = &["a", "b", "x", "y", "q.r", "x  y"];
-pub const INT_CONSTS: &[i64] = &[0, 1, 2, 5, -1, -3, 10, 7045, i64::MAX, i64::MIN, 9007199254740993];
-pub const FLT_CONSTS: &[f64] = &[0.0, 0.5, 1.0, 1.5, -1.5, 2.0, 10.0, 1e19];
+pub const INT_CONSTS: &[i64] = &[0, 1, 2, 5, -1, -3, 10, 7045, i64::MAX, i64::MIN, 9007199254740993, 2147483648, 4294967296, 255];
+pub const FLT_CONSTS: &[f64] = &[0.0, 0.5, 1.0, 1.5, -1.5, 2.0, 10.0, 1e19, -0.0, 1e15, 1e16, 16777217.0];
 
 /// (regex, notes): valid regexes incl. every `.*` adjacency the rewrite pass looks at
 pub const REGEXES: &[&str] = &[
@@ -66,12 +66,52 @@ impl Default for GenCfg {
     }
 }
 
+/// lengths around the block sizes of vectorised searchers and small-string buffers
+pub const PAD_LENS: &[usize] = &[7, 8, 15, 16, 17, 31, 32, 33, 63, 64, 65, 127, 128, 129, 255, 256, 257, 1000, 4097];
+/// characters that are rare in test data: multi-byte (2, 3, 4 bytes), case pairs outside ASCII,
+/// characters whose lower / upper case has another length, NUL, CR, tab, trailing blanks
+pub const SPICE: &[&str] = &["\u{e9}", "\u{c9}", "\u{df}", "\u{130}", "\u{212a}", "\u{17f}", "\u{4e2d}", "\u{1f600}", "\u{0}", "\r\n", "\t", " ", "  ", "\u{a0}", "\u{2028}", "\u{301}", "\\", "\"", "'", "%", "[", "("];
+
+pub fn pad(rng: &mut Rng, n: usize) -> String {
+    let unit: &str = *rng.pick(&["-", "z", "ab", "fo", "\u{e9}", "Z9", "ba"]);
+    let mut s = String::new();
+    while s.len() < n {
+        s.push_str(unit);
+    }
+    s
+}
+
 pub fn word(rng: &mut Rng) -> String {
     let n = rng.weighted(&[10, 60, 25, 5]);
     let mut s = String::new();
     for _ in 0..n {
         let w: &&str = rng.pick(WORDS);
         s.push_str(w);
+    }
+    if rng.chance(5) {
+        // a decoration at the start, at the end or in the middle
+        let d: &&str = rng.pick(SPICE);
+        match rng.below(3) {
+            0 => s.insert_str(0, d),
+            1 => s.push_str(d),
+            _ => {
+                let mut at = s.len() / 2;
+                while !s.is_char_boundary(at) {
+                    at -= 1;
+                }
+                s.insert_str(at, d);
+            }
+        }
+    }
+    if rng.chance(1) {
+        // a long word
+        let n = *rng.pick(&PAD_LENS[..16]);
+        let p = pad(rng, n);
+        if rng.chance(50) {
+            s.push_str(&p);
+        } else {
+            s.insert_str(0, &p);
+        }
     }
     s
 }
@@ -208,11 +248,11 @@ pub fn gen_entry(rng: &mut Rng, cfg: &GenCfg, depth: usize) -> (Key, RVal) {
     let quant = matches!(modi, KMod::All | KMod::Of(_));
     let want_list = quant || (cfg.lists && rng.chance(30));
     if want_list {
-        let n = 1 + rng.below(cfg.max_list);
+        let n = if cfg.wide_lists && rng.chance(4) { *rng.pick(&[6usize, 7, 8, 9, 15, 16, 17, 31, 32, 33, 40]) } else { 1 + rng.below(cfg.max_list) };
         let mut ms: Vec<RVal> = vec![];
         if cfg.wide_lists && matches!(castm, KMod::None) && rng.chance(4) {
             // a wide list: 60..140 needles (the per-needle counting switches representation at 64)
-            let k = 60 + rng.below(80);
+            let k = if rng.chance(12) { 250 + rng.below(20) } else { 60 + rng.below(80) };
             let kind = rng.below(4);
             for i in 0..k {
                 ms.push(RVal::Str(match kind {
@@ -415,10 +455,15 @@ pub fn gen_rule(rng: &mut Rng, cfg: &GenCfg) -> RuleAst {
     if cfg.nested && rng.chance(8) {
         return nested_family_rule(rng, cfg);
     }
-    let n = 1 + rng.below(cfg.max_idents);
+    // now and then a big rule: many identifiers and a long condition, or deeper nesting
+    let big = cfg.wide_lists && rng.chance(2);
+    let deep = GenCfg { max_depth: 4, ..cfg.clone() };
+    let cfg = if cfg.nested && cfg.max_depth == 2 && rng.chance(3) { &deep } else { cfg };
+    let n = if big { *rng.pick(&[8usize, 9, 16, 17, 33]) } else { 1 + rng.below(cfg.max_idents) };
     let names: Vec<String> = (0..n).map(|i| format!("I{}", i)).collect();
-    let idents: Vec<(String, Ident)> = names.iter().map(|n| (n.clone(), gen_ident(rng, cfg))).collect();
-    let leaves = 1 + rng.below(cfg.max_cond_leaves);
+    let small = GenCfg { max_entries: 2, max_list: 2, wide_lists: false, ..cfg.clone() };
+    let idents: Vec<(String, Ident)> = names.iter().map(|n| (n.clone(), gen_ident(rng, if big { &small } else { cfg }))).collect();
+    let leaves = if big { n + rng.below(n) } else { 1 + rng.below(cfg.max_cond_leaves) };
     let cond = gen_cond_tree(rng, cfg, &names, &idents, leaves);
     RuleAst { idents, cond, tp: vec![], tn: vec![] }
 }
@@ -507,6 +552,22 @@ pub fn hay_for(rng: &mut Rng, pat: &str, want: bool) -> String {
         _ => String::new(),
     };
     for _ in 0..24 {
+        if rng.chance(5) {
+            // the needle at the very start / end / in the middle of a long value
+            let n = *rng.pick(PAD_LENS);
+            let m = *rng.pick(&PAD_LENS[..9]);
+            let (pa, qa) = (pad(rng, n), pad(rng, m));
+            let cand = match rng.below(4) {
+                0 => format!("{}{}", pa, needle),
+                1 => format!("{}{}", needle, pa),
+                2 => format!("{}{}{}", pa, needle, qa),
+                _ => pa,
+            };
+            if str_match(&p, &cand) == want {
+                return cand;
+            }
+            continue;
+        }
         let cand = match rng.below(11) {
             0 => needle.clone(),
             1 => format!("{}{}", needle, word(rng)),
